@@ -361,6 +361,8 @@ def run_stft_guard(cfg):
         o._started = True
         o._buf_len = SInt(bl)
         o._first_frame = decide(first)
+        # the utterance in progress may be in another sample type than the signal of the refused call (float64)
+        o._chunk_dtype = 'f4' if decide(z3.Bool('utt_is_f32')) else 'f8'
         before = dict(_scalars(o))
         buf = o._buf
         get0 = buf._get
@@ -404,7 +406,9 @@ def run_stft_guard(cfg):
         s.add(z3.Or(res[1]))
         r = check_sat(s)
         if r == 'sat':
-            viol.append(dict(base, what='refused call disturbed the utterance in progress'))
+            m = s.model()
+            viol.append(dict(base, what='refused call disturbed the utterance in progress', utt_f32=z3.is_true(m.eval(z3.Bool('utt_is_f32'), True)),
+                             bl=m.eval(z3.Int('bl'), True).as_long(), N=m.eval(z3.Int('N'), True).as_long()))
         else:
             dis += 1
         s.pop()
@@ -845,6 +849,29 @@ def _replay_with(k, mk, lens, nxt, rng, w=None):
                 if a.shape != b.shape or not np.array_equal(a, b):
                     return {'reproduced': True, 'detail': 'utterance of %d samples interrupted after %d by a refused %s: %d frames, undisturbed %d frames%s' % (
                         len(xs), chunk, name, a.shape[0], b.shape[0], '' if a.shape != b.shape else ' (values differ)')}
+        # ... also when the refused signal has another sample type than the utterance, and finalize() follows directly
+        f32 = bool(w.get('utt_f32'))
+        for ut, other in ((np.float32, np.float64), (np.float64, np.float32)) if f32 else ((np.float64, np.float32), (np.float32, np.float64)):
+            for name in ('compute_full', 'frame_by_frame_calculation'):
+                for n_utt in (nxt[0] + 3, 2 * nxt[0] + 1, 5):
+                    xs = rng.randn(n_utt).astype(ut)
+                    c, ref = mk(), mk()
+                    parts, parts_ref = [c.compute_chunk(xs)], [ref.compute_chunk(xs)]
+                    if not c.started:
+                        continue
+                    try:
+                        (c.compute_full if name == 'compute_full' else (lambda s_: frame_by_frame_calculation(c, s_)))(rng.randn(w.get('N', 9)).astype(other))
+                    except ValueError:
+                        pass
+                    except Exception as e:
+                        return {'reproduced': True, 'detail': '%s raised %s instead of ValueError' % (name, type(e).__name__)}
+                    parts.append(c.finalize())
+                    parts_ref.append(ref.finalize())
+                    for a, b in zip(parts, parts_ref):
+                        if a.shape != b.shape or a.dtype != b.dtype or not np.array_equal(a, b):
+                            return {'reproduced': True, 'detail': '%s utterance of %d samples, a refused %s with a %s signal, then finalize(): the flushed frames are %s %s, undisturbed %s %s%s' % (
+                                np.dtype(ut).name, n_utt, name, np.dtype(other).name, a.dtype, a.shape, b.dtype, b.shape,
+                                '' if (a.shape != b.shape or a.dtype != b.dtype) else ' (values differ by up to %.3g)' % float(np.max(np.abs(a.astype(float) - b.astype(float)))))}
         return {'reproduced': False, 'detail': 'guards raise ValueError on the real library and leave the utterance in progress alone'}
     for N1 in lens:
         x1 = rng.randn(N1)
